@@ -5,7 +5,7 @@ NOT_APPLICABLE = {
            "threads or multiprocessing symbolically, and a sequential stub would decide one schedule only (DESIGN §4 C13)",
 }
 ENGINES = [
-    {"name": "pysym", "path": "vf/pysym", "serves_properties": ["C17", "C07", "C06", "C09", "C10", "C12", "C04", "C18", "C08", "C15", "C01", "C14", "C16", "C03", "C19"],
+    {"name": "pysym", "path": "vf/pysym", "serves_properties": ["C17", "C07", "C06", "C09", "C10", "C12", "C04", "C18", "C08", "C15", "C01", "C14", "C16", "C03", "C19", "C02"],
      "kind_free_text": "bounded path-forking symbolic interpreter over the AST of the real py7zr sources (re-parsed "
                        "from /repo on every run), z3 bit-vectors / integers / ropes; solver verdict per path"},
 ]
@@ -23,6 +23,17 @@ WR_NOTE = ("codec libraries replaced by a contract stub (consumes the source, wr
            "abstraction; the independent reference reader/writer in /verif is the oracle; session shapes are an enumerated bound, "
            "all sizes/CRCs/timestamps symbolic; payload bytes and real codecs are outside")
 CHECKS = {
+    "C02": dict(engine=B, ref="DESIGN.md §4 C02",
+                technique="bounded symbolic execution of the real _make_file_info + ArchiveFile decoding from the AST over a symbolic "
+                          "st_mode (bit-vectors), and of ArchiveTimestamp.from_datetime/totimestamp over a per-binade linear model "
+                          "of IEEE-754 rounding; z3 decides",
+                text="Decided for the metadata ENCODING only (not for trees): (a) for every st_mode with type REG/DIR/LNK and any "
+                     "permission bits, every target mode and both dereference settings, the stored attribute word decodes back to "
+                     "the same kind (directory / symlink / file), emptystream iff directory, posix_mode == S_IMODE of the effective "
+                     "mode; (b) for every double mtime in 1970..2100 the FILETIME conversion and back stays within 5 microseconds.",
+                note="the filesystem walk, real symlinks, os.utime/chmod, name handling on disk and the shutil/CLI front ends are "
+                     "outside – this check says nothing about trees; float model = exact result + round-to-nearest per binade with "
+                     "nondeterministic ties"),
     "C03": dict(engine=B, ref="DESIGN.md §4 C03",
                 technique="bounded symbolic execution of the real get_sanitized_output_path / is_path_valid / canonical_path / "
                           "is_relative_to from the AST over symbolic path components; z3 decides lexical containment",
